@@ -129,8 +129,16 @@ def _mutate(kind, obj, op):
             if src.center_vertices.shape[1] == 2 else None
         order = ["left_vertices", "right_vertices", "center_vertices"]
         rng.shuffle(order)
-        for a in order:
-            setattr(obj, a, np.array(getattr(src, a)))
+        if len(op) > 2 and op[2] == "inplace":
+            # `lanelet.left_vertices += d`: the array the lanelet holds is edited in place and assigned back
+            d = np.array([scen.rnd(rng, -5, 5), scen.rnd(rng, 2, 6)] + [0.0] * (obj.center_vertices.shape[1] - 2))
+            for a in order:
+                arr = getattr(obj, a)
+                arr += d * (1.0 if a != "center_vertices" else 1.5)
+                setattr(obj, a, arr)
+        else:
+            for a in order:
+                setattr(obj, a, np.array(getattr(src, a)))
     elif name == "add_lanelet":
         net = obj.lanelet_network if kind == "scenario" else obj
         la = new_lanelet(net, op[1])
@@ -436,7 +444,7 @@ def g_mutator(rng, kind, obj):
     if kind == "lanelet":
         if obj.center_vertices.shape[1] == 3:
             return ["conv2d"]
-        return rng.choice([g_tr(rng), g_tr(rng), g_tr(rng), ["conv2d"], ["set_verts", s], ["set_verts", s]])
+        return rng.choice([g_tr(rng), g_tr(rng), g_tr(rng), ["conv2d"], ["set_verts", s], ["set_verts", s, "inplace"]])
     if kind == "cycle":
         return rng.choice([["set_elems", s], ["set_offset", rng.randint(0, 9)], ["set_offset", rng.randint(0, 9)],
                            ["set_active", rng.random() < 0.5]])
